@@ -99,12 +99,16 @@ structure S (α : Type) where
   inflightEp : Nat            -- tag of the request in `Send`
   sentEp : List (Nat × Nat)   -- (stream, tag) of every request on the wire (parallel to `sent`)
   streamEp : Nat → Nat        -- the epoch of stream `k` (set when the reconnect that created it resets the nonces)
+  /-- the requests in the order in which their producers took the client lock (that is the order of the atomic
+  operations of `Seq`: the interest set is changed and the request is built inside that section) -/
+  lockSeq : List α
 
 def init {α : Type} : S α :=
   { queue := [], cmu := none, pc := fun _ => .idle, spc := .sel, rpc := .recv 1, senderStream := some 1,
     streamCh := none, nextSid := 2, dead := fun _ => false, stalled := false, closed := false,
     enq := [], gone := [], sent := [], dropped := [], drained := [], resub := [],
-    epoch := 0, lockEp := fun _ => 0, rLockEp := 0, queueEp := [], inflightEp := 0, sentEp := [], streamEp := fun _ => 0 }
+    epoch := 0, lockEp := fun _ => 0, rLockEp := 0, queueEp := [], inflightEp := 0, sentEp := [], streamEp := fun _ => 0,
+    lockSeq := [] }
 
 inductive Lbl (α : Type)
   | pStart (i : Nat) (r : α)
@@ -148,7 +152,8 @@ def step {α : Type} (cap : Nat) (s : S α) : Lbl α → Option (S α)
     | _ => none
   | .pLock i =>
     match s.pc i, s.cmu with
-    | .want r, none => some { (setPc s i (.locked r)) with cmu := some (.prod i), lockEp := fun j => if j = i then s.epoch else s.lockEp j }
+    | .want r, none => some { (setPc s i (.locked r)) with cmu := some (.prod i), lockEp := fun j => if j = i then s.epoch else s.lockEp j,
+                                                            lockSeq := s.lockSeq ++ [r] }
     | _, _ => none
   | .pEnq i =>
     match s.pc i with
@@ -188,7 +193,7 @@ def step {α : Type} (cap : Nat) (s : S α) : Lbl α → Option (S α)
     | _ => none
   | .rAckLock =>
     match s.rpc, s.cmu with
-    | .ackWant r k, none => some { s with rpc := .ackLocked r k, cmu := some .recv, rLockEp := s.epoch }
+    | .ackWant r k, none => some { s with rpc := .ackLocked r k, cmu := some .recv, rLockEp := s.epoch, lockSeq := s.lockSeq ++ [r] }
     | _, _ => none
   | .rAckEnq =>
     match s.rpc with
